@@ -27,7 +27,7 @@ RULE = ('scenarios: trash-restore (single / multi index; file, deep directory, s
 ASSUMPTIONS = ['kill = SIGKILL between two system calls; no power loss', 'restore destinations are free (clobbering is C06)']
 PROBES = ['crash-states', 'restore-scenarios', 'empty-scenarios', 'rm-scenarios', 'cross-volume-restore', 'killed-mid-copy', 'killed-mid-rmtree',
           'killed-between-payload-and-info', 'recovery-rerun-completed', 'recovery-empty-after-restore', 'history-order-checked',
-          'history-names-a-crash-point', 'thousands-of-entries']
+          'history-names-a-crash-point', 'thousands-of-entries', 'retry-with-overwrite-after-kill']
 TECHNIQUE = 'deterministic simulation with crash injection enumerated over every mutating op of seeded restore/empty/rm scenarios; crash-state invariant + recovery'
 LEVEL_TEXT = 'crash points enumerated completely per sampled scenario; scenarios sampled by seed'
 LEVEL_NOTE = 'trusted: sticky-kill model, snapshot function, model/bag.py'
@@ -232,6 +232,26 @@ def check(sim, case, st):
             else:
                 st.probes['recovery-rerun-completed'] += 1
         else:
+            locs_ = [e.location for e in bag0 if e.location]
+            if len(set(locs_)) == len(locs_) and CUR['k'][0] == 'kill' and (k if not isinstance(k, tuple) else 0) % 3 == 0:
+                # the user tries again, this time with --overwrite and asking for everything that is still listed: what the
+                # killed run had already brought back (its stale .trashinfo may still be listed) must not be lost by the retry
+                pre = sim.run({'argv': ['trash-restore', '--overwrite', '/'], 'env': env, 'cwd': '/', 'uid': uid, 'stdin': '\n'})
+                nl = len(OR.parse_restore_listing(pre.outs) or [])
+                if nl:
+                    sim.run({'argv': ['trash-restore', '--overwrite', '/'], 'env': env, 'cwd': '/', 'uid': uid, 'stdin': '0-%d\n' % (nl - 1)})
+                    st.sims += 2
+                    st.probes['retry-with-overwrite-after-kill'] += 1
+                    s_retry = sim.snap()
+                    for e in bag0:
+                        if not (e.has_payload and e.location):
+                            continue
+                        want = OR.payload_tree(before, e)
+                        if (want.get('') or ('?',))[0] == 'd':
+                            continue        # (--overwrite onto an existing directory - here: a partial copy - moves the entry inside it; C06 leaves directories at the destination aside)
+                        rt_ = ML.resolve(s_retry, e.tdir) or e.tdir
+                        if not Wd.same_tree(want, Wd.subtree(s_retry, rt_ + '/files/' + e.name)) and not Wd.same_tree(want, Wd.subtree(s_retry, e.location)):
+                            bad('lost-by-retry-with-overwrite', 'after the kill and a retry with --overwrite entry %r is complete neither in the trash nor at %r' % (e, e.location), e)
             re_ = sim.run({'argv': ['trash-empty'], 'env': env, 'cwd': '/', 'uid': uid})
             st.sims += 1
             after = sim.snap()
